@@ -212,10 +212,21 @@ def model(c, ans):
 def agree(io, mo):
     if "__harness_exc__" in io or "__model_decode_error__" in mo:
         return False
-    for k in ("assets", "again", "via_directory", "pack_banner"):
-        if io[k] != mo[k]:
-            return False
-    return True
+    import posixpath
+    for k in ("assets", "again", "via_directory"):
+        if io[k] == mo[k]:
+            continue
+        for kind in KINDS:
+            a, b = io[k].get(kind), mo[k].get(kind)
+            if a == b:
+                continue
+            # "Which of several matching entries is returned depends on listing order and is not claimed": another entry of
+            # the same directory that matches the pattern is as good as the model's (the named-file clause is the oracle's)
+            if a is None or b is None or posixpath.dirname(a) != posixpath.dirname(b):
+                return False
+            if not (matches(kind, posixpath.basename(a)) and matches(kind, posixpath.basename(b))):
+                return False
+    return io["pack_banner"] == mo["pack_banner"]
 
 
 import re
